@@ -129,6 +129,11 @@ def run(chk, facts_dir, tier):
     chk.floor("R2.5", n_pl, 2)
     # the partition key mismatch is an error in all four arms
     mism = [s for i, j, s in vb.assigns() if s["rv"]["k"] == "agg" and s["rv"]["ak"].endswith("EventValidationError::PartitionKeyMismatch")]
+    # the check may live in a helper (`ensure_same_partition_key(new, existing)?`): each call to a workspace function that builds the error counts as a site
+    for bi, t in vb.calls():
+        hb = prog.bodies.get(vb.callee(t) or vb.callee_decl(t) or "")
+        if hb is not None and hb.path != vb.path and any(s2["rv"]["k"] == "agg" and s2["rv"]["ak"].endswith("EventValidationError::PartitionKeyMismatch") for _, _, s2 in hb.assigns()):
+            mism.append({"line": t.get("line")})
     if len(mism) >= 4:
         chk.ok("R2.5", "partition key mismatch is rejected in all four expectation arms (%d sites)" % len(mism), vb.where())
     else:
